@@ -231,6 +231,16 @@ def families(rng):
         g.pid = 0
         prog0 = [g.append("t1", s) for s in pro]
         out.append(("RR|R " + tag, [prog0 + ["R t1 1", "R t1 1"], ["R t1 1"]], len(pro)))
+    # a consumer against a thread that rotates the block AND consumes (second consumer): the first consumer is
+    # overtaken while it sits between its snapshots and its commit, the sealed block is drained and stepped past
+    # by the other thread, then it commits (seeded change c05b-1 — the commit-time re-check `>=` weakened to `>` —
+    # needs exactly this; no family had an appender that also reads).  Generated with <= 1 preemption, all kept.
+    for pro, nread, last in (([1000, 1000, 1000], 3, "R t1 1"), ([1000, 1000, 1000], 3, "R t1 0"), ([1600, 1600], 2, "R t1 1"),
+                             ([1000, 1000, 1000], 3, "BR t1 max 1"), ([1000, 1000, 1000], 4, "R t1 1")):
+        g.pid = 0
+        prog0 = [g.append("t1", x) for x in pro] + ["R t1 1"]
+        prog1 = [g.append("t1", 1000)] + ["R t1 1"] * nread + [last]
+        out.append(("R|A%s%s p%s" % ("R" * nread, {"R t1 1": "R", "R t1 0": "P", "BR t1 max 1": "BR"}[last], "-".join(str(x) for x in pro)), [prog0, prog1], len(pro)))
     # two producers
     g.pid = 0
     out.append(("A|A", [[g.append("t1", 1000), g.append("t1", 1000)], [g.append("t1", 1600), g.append("t1", 1600)]], 0))
@@ -364,6 +374,8 @@ def run(ctx):
         mode = rng.choice(modes) if not name.startswith("A|P") else "strict"
         hdr = "mode=%s backend=%s" % (mode, rng.choice(["fd", "mmap"]))
         extra = "fx=%d gen=enum:%d pre=0:%d" % (fx, limit, pre)
+        if name.startswith("R|A"):
+            extra = "fx=%d gen=pb:1:%d pre=0:%d" % (fx, limit, pre)
         gen_req.append((name, hdr, progs, case_line("g", hdr, progs, None, topics_of(progs), extra)))
     gl = model_lines(driver, "conc_gen", [g[3] for g in gen_req])
     redo = []
@@ -374,7 +386,9 @@ def run(ctx):
         body, tot, comp = out.rsplit(" ", 2)
         scheds = [] if body == "-" else body.split("/")
         complete = comp == "complete=1"
-        if complete and (not q or len(scheds) <= 3 * per_fam_quick):
+        if name.startswith("R|A"):
+            sampled_fams.append(name)          # all schedules with at most one preemption, none dropped
+        elif complete and (not q or len(scheds) <= 3 * per_fam_quick):
             exhaustive_fams.append((name, len(scheds)))
         else:
             if not complete:
